@@ -204,6 +204,10 @@ func (f *frame) checkPost(ri retInfo, pos token.Pos) {
 		env.heap = h
 	}
 	for i, cl := range con.Ensures {
+		if cl.Assumed {
+			g.assumedPosts[con.Name+": "+cl.Src] = true
+			continue
+		}
 		t, err := g.trBool(cl.E, env)
 		name := "post:" + clauseLabel(cl, i)
 		if err != nil {
@@ -262,6 +266,9 @@ func (f *frame) frameGoal(name, cur string) (string, bool) {
 	var sliceMods []modLoc
 	for _, m := range f.mods[name] {
 		switch {
+		case m.freshOnly:
+			// only cells that did not exist at entry may change: the frame condition below (over the cells
+			// allocated at entry) stays as it is
 		case m.all && m.slice != nil:
 			sliceMods = append(sliceMods, m)
 		case m.idx == "":
